@@ -254,7 +254,9 @@ def provider_sweep(ctx, rng, provider, budget):
         d_idx = [q["index"] for q in ref["requests"] if q["route"] == data_route]
         s_idx = [q["index"] for q in ref["requests"] if q["route"] == sum_route]
         if d_idx and s_idx:
-            for combo, script in (("corrupt + omit_checksum", [{"when": {"index": d_idx[0]}, "fault": "corrupt"}, {"when": {"index": [i for i in s_idx if i > d_idx[0]][0]}, "fault": "omit_checksum"}]),
+            del_route = [x for x in routes if x.endswith("delete")][0]
+            for combo, script in (("corrupt + failing delete of the temporary", [{"when": {"index": d_idx[0]}, "fault": "corrupt"}, {"when": {"route": del_route, "nth": 1}, "fault": "http_5xx_json"}]),
+                                  ("corrupt + omit_checksum", [{"when": {"index": d_idx[0]}, "fault": "corrupt"}, {"when": {"index": [i for i in s_idx if i > d_idx[0]][0]}, "fault": "omit_checksum"}]),
                                   ("omit_checksum", [{"when": {"index": [i for i in s_idx if i > d_idx[0]][0]}, "fault": "omit_checksum"}])):
                 r = sc.run(n, script=script)
                 n += 1
@@ -264,7 +266,7 @@ def provider_sweep(ctx, rng, provider, budget):
                 label = "%s, %s in the first upload" % (provider, combo)
                 pr = examine(sc, r, label, None)
                 if not pr and r["blobs"].get(sc.final_path(sc.backups[0])):
-                    pr = "%s: the backup got its final name although the provider reported no checksum at all" % label
+                    pr = "%s: the backup got its final name although nothing was verified" % label
                 if not pr and not slevel.errors_of(r["out"]):
                     pr = "%s: no error reported" % label
                 if pr:
